@@ -70,6 +70,16 @@ class Const:
         return hash(repr(self.v))
 
 
+class LamV:
+    """A lambda of the interpreted function as a value (called later, in the state of that moment)."""
+
+    def __init__(self, node):
+        self.node = node
+
+    def __repr__(self):
+        return "<lambda@%s:%s>" % (getattr(self.node, "lineno", "?"), getattr(self.node, "col_offset", "?"))
+
+
 class Tup:
     def __init__(self, items):
         self.items = list(items)
@@ -595,6 +605,8 @@ class Interp:
         """-> list of (value | Exc, state)"""
         if isinstance(e, ast.Constant):
             return [(Const(e.value), st)]
+        if isinstance(e, ast.Lambda) and not (e.args.defaults or e.args.kw_defaults or e.args.vararg or e.args.kwarg or e.args.kwonlyargs):
+            return [(Const(LamV(e)), st)]  # a closure of this function: its free names are read when it is called
         if isinstance(e, ast.Name):
             if e.id in st.env:
                 return [(st.env[e.id], st)]
@@ -893,6 +905,21 @@ class Interp:
             name = f.attr
             if isinstance(f.value, ast.Name) and f.value.id == self.selfname:
                 name = "self." + f.attr
+        if isinstance(callee, Const) and isinstance(callee.v, LamV) and not kw and len(args) == len(callee.v.node.args.args):
+            s2 = st.copy()
+            saved = {}
+            for p_, a_ in zip(callee.v.node.args.args, args):
+                saved[p_.arg] = s2.env.get(p_.arg)
+                s2.env[p_.arg] = a_
+            out_ = []
+            for v_, s3 in self.eval(callee.v.node.body, s2):
+                for k_, old_ in saved.items():
+                    if old_ is None:
+                        s3.env.pop(k_, None)
+                    else:
+                        s3.env[k_] = old_
+                out_.append((v_, s3))
+            return out_
         if self.oracle is not None:
             r = self.oracle(self, e, name, recv, args, kw, st)
             if isinstance(r, Inline):
